@@ -6,7 +6,7 @@ ALLOWED_AXIOMS = set()  # target: every property theorem is closed under the glo
 
 CURSOR_FNS = ["Bs", "Cbt", "Cha", "Cht", "Cnl", "Cpl", "Cr", "Cub", "Cud", "Cuf", "Cup", "Cuu", "Ht",
               "Vpa", "Vpr", "Lf", "Nel", "Ri", "Decstbm", "Decset", "Decrst"]
-SCROLL_FNS = ["Lf", "Nel", "Ri", "Su", "Sd", "Il", "Dl", "Decstbm", "Print"]
+SCROLL_FNS = ["Lf", "Nel", "Ri", "Su", "Sd", "Il", "Dl", "Decstbm", "Print", "Decset", "Decrst", "R"]
 EDIT_FNS = ["Ed", "El", "Ech", "Ich", "Dch", "Decaln"]
 PRINT_FNS = ["Print", "Rep", "So", "Si", "Gzd4", "G1d4"]
 SAVE_FNS = ["Decsc", "Decrc", "Scosc", "Scorc", "Decset", "Decrst", "Decstr", "R"]
@@ -65,11 +65,11 @@ PROPS = {
         "cone": PRINT_FNS, "proj": VIEW_PROJ + ["charset", "modes", "pen"],
     },
     "C05": {
-        "runs": runs([T("cursor", 2700), T("tabs", 900)], [T("cursor", 40000), T("tabs", 12000), T("general", 12000)]),
+        "runs": runs([T("cursor", 2700), T("tabs", 900), T("alt", 600)], [T("cursor", 40000), T("tabs", 12000), T("general", 12000)]),
         "cone": CURSOR_FNS, "proj": ["cursor", "margins", "modes", "buf.", "panic."],
     },
     "C06": {
-        "runs": runs([T("scroll", 2700), T("scrollback", 900)], [T("scroll", 40000), T("scrollback", 15000), T("general", 12000)]),
+        "runs": runs([T("scroll", 2700), T("scrollback", 900), T("alt", 900)], [T("scroll", 40000), T("scrollback", 15000), T("general", 12000)]),
         "cone": SCROLL_FNS, "proj": VIEW_PROJ + ["margins"],
     },
     "C07": {
